@@ -112,6 +112,8 @@ def generate(rng, tier):
     if rng.random() < 0.12:
         return {"kind": "ext", "exts": rng.sample([".hy", "", ".txt", ".hyx", ".py", ".data", ".PY", ".Py", ".hY", ".py3", ".pyx"], 5),
                 "opt": rng.choice([0, 0, 1, 2]), "val": rng.randrange(1000)}
+    if rng.random() < 0.14:
+        return gen_pkg(rng)
     libs = [gen_lib(rng, i) for i in range(rng.choice([1, 1, 2]))]
     clients = [gen_client(rng, j, libs) for j in range(rng.choice([1, 1, 2]))]
     mods = ["lib%d" % i for i in range(len(libs))] + ["cli%d" % j for j in range(len(clients))]
@@ -138,6 +140,238 @@ def generate(rng, tier):
     ops.append({"op": "import", "client": rng.randrange(len(clients))})
     ops.append({"op": "import", "client": rng.randrange(len(clients))})
     return {"kind": "world", "libs": libs, "clients": clients, "ops": ops, "subproc": tier == "thorough" and rng.random() < 0.04}
+
+
+# ------------------------------------------------------------------ package worlds
+
+PKG_FORMS = ["A", "B", "C", "D", "E", "F", "G", "R", "L"]
+PKG_FILES = ["pkg.__init__", "pkg.sub", "pkg.other", "pkg.inner.__init__", "pkg.inner.deep", "cli"]
+
+
+def gen_pkg(rng):
+    """A package with a macro submodule, a sibling that requires it relatively, a nested subpackage, and a client outside
+    the package that requires them in every shape (incl. the submodule fallback `(require pkg [sub :as s])`)."""
+    forms = [f for f in PKG_FORMS if rng.random() < 0.6] or ["A"]
+    rng.shuffle(forms)
+    ops = [{"op": "import"}]
+    for _ in range(rng.randrange(3, 9)):
+        r = rng.random()
+        if r < 0.5:
+            ops.append({"op": "import"})
+        elif r < 0.7:
+            ops.append({"op": "edit", "file": rng.choice(PKG_FILES)})
+        elif r < 0.8:
+            ops.append({"op": "touch", "file": rng.choice(PKG_FILES)})
+        elif r < 0.92:
+            ops.append({"op": "rm_pyc", "file": rng.choice(PKG_FILES)})
+        else:
+            ops.append({"op": "dwb", "on": rng.random() < 0.5})
+    ops += [{"op": "import"}, {"op": "import"}]
+    return {"kind": "pkg", "forms": forms, "ops": ops, "first": rng.choice(["cli", "cli", "pkg.other", "pkg.inner.deep"])}
+
+
+def pkg_texts(P, forms, stamps):
+    t = {}
+    t["pkg.__init__"] = f"(setv pkgval 1)\n(setv stamp {stamps['pkg.__init__']})\n"
+    t["pkg.sub"] = ('(defmacro s1 [] "sub:s1")\n(defmacro s-two [x] `[~x "sub:s-two"])\n(defmacro _spriv [] "sub:_spriv")\n'
+                    f'(defreader rs \'"sub:rs")\n(setv stamp {stamps["pkg.sub"]})\n')
+    t["pkg.other"] = ('(require .sub [s1 :as rel1])\n(require .sub :as S)\n(defmacro o1 [] "other:o1")\n'
+                      f'(setv oval [(rel1) (S.s-two 3) (o1)])\n(setv stamp {stamps["pkg.other"]})\n')
+    t["pkg.inner.__init__"] = f"(setv stamp {stamps['pkg.inner.__init__']})\n"
+    t["pkg.inner.deep"] = (f'(require {P}pkg.sub [s1 :as up1 s-two])\n(require {P}pkg.sub :readers [rs])\n'
+                           f'(setv dval [(up1) (s-two 9) #rs])\n(setv stamp {stamps["pkg.inner.deep"]})\n')
+    c, vals, keys = [], [], set()
+    for f in forms:
+        if f == "A":
+            c.append(f"(require {P}pkg [sub :as s])")
+            vals += ["(s.s1)", "(s.s-two 1)"]
+            keys |= {"s.s1", "s.s_two", "s._spriv"}
+        elif f == "B":
+            c.append(f"(require {P}pkg.sub [s1 s-two :as t2])")
+            vals += ["(s1)", "(t2 2)"]
+            keys |= {"s1", "t2"}
+        elif f == "C":
+            c.append(f"(require {P}pkg.sub :as ps)")
+            vals += ["(ps.s-two 3)"]
+            keys |= {"ps.s1", "ps.s_two"}
+        elif f == "D":
+            c.append(f"(require {P}pkg.sub)")
+            vals += [f"({P}pkg.sub.s1)"]
+            keys |= {f"{P}pkg.sub.s1", f"{P}pkg.sub.s_two"}
+        elif f == "E":
+            c.append(f"(require {P}pkg.other *)")
+            vals += ["(o1)", "(rel1)", "(S.s-two 4)"]
+            keys |= {"o1", "rel1", "S.s1", "S.s_two"}
+        elif f == "F":
+            c.append(f"(require {P}pkg.inner.deep :as D)")
+            vals += ["(D.up1)", "(D.s-two 5)"]
+            keys |= {"D.up1", "D.s_two"}
+        elif f == "G":
+            c.append(f"(require {P}pkg [sub :as s2 other :as oo])")
+            vals += ["(s2.s1)", "(oo.o1)", "(oo.rel1)", "(oo.S.s-two 6)"]
+            keys |= {"s2.s1", "s2.s_two", "s2._spriv", "oo.o1", "oo.rel1", "oo.S.s1", "oo.S.s_two"}
+        elif f == "R":
+            c.append(f"(require {P}pkg.sub :readers [rs])")
+            vals += ["#rs"]
+        elif f == "L":
+            # (a function-local `(require pkg [sub :as loc])` -- the submodule fallback -- raises HyRequireError when the
+            # function is called, from source and from cache alike; observed, outside C15, see DESIGN 8.8)
+            c.append(f"(defn lf [] (require {P}pkg.sub :as loc) (require {P}pkg.sub [s-two :as l2]) [(loc.s1) (l2 7)])")
+    c.append(f"(import {P}pkg.other [oval] {P}pkg.inner.deep [dval])")
+    c.append("(setv v [" + " ".join(vals) + "])")
+    c.append(f"(setv stamp {stamps['cli']})")
+    t["cli"] = "\n".join(c) + "\n"
+    return t, vals, keys
+
+
+def pkg_value(form):
+    """Value by construction of one client expression."""
+    import re
+    if form == "#rs":
+        return "sub:rs"
+    m = re.match(r"\((\S+?)(?: (\d+))?\)$", form)
+    name, arg = m.group(1), m.group(2)
+    last = name.split(".")[-1]
+    src = "other" if last == "o1" else "sub"
+    real = {"rel1": "s1", "up1": "s1", "t2": "s-two", "l2": "s-two"}.get(last, last)
+    tagv = f"{src}:{real}"
+    return [int(arg), tagv] if arg is not None else tagv
+
+
+def execute_pkg(desc):
+    from sim import kernel
+    hy = _S["hy"]
+    _S["n"] += 1
+    P = "k%dx%d_" % (os.getpid() % 100000, _S["n"])
+    W = World(P)
+    events, viols = [], []
+    faults = {"pyc_deleted": 0, "dont_write_bytecode": 0, "source_touched": 0, "source_edited": 0}
+    probes = {"imports": 0, "modules_loaded_from_source": 0, "modules_loaded_from_cache": 0, "macro_expansion_probes": 0,
+              "package_imports": 0, "package_client_from_cache": 0}
+    stamps = {f: 1 for f in PKG_FILES}
+    forms = desc["forms"]
+    seq = []
+    try:
+        texts, vals, keys = pkg_texts(P, forms, stamps)
+        for f in PKG_FILES:
+            W.write(P + f, texts[f])
+        pyc_valid = {f: False for f in PKG_FILES}
+        want_v = [pkg_value(x) for x in vals]
+        want_exp = {}
+        for k in keys:
+            last = k.split(".")[-1]
+            src = "other" if last == "o1" else "sub"
+            real = {"rel1": "s1", "up1": "s1", "t2": "s_two", "l2": "s_two"}.get(last, last)
+            tagv = f"{src}:{real.replace('s_two', 's-two')}"
+            want_exp[k] = [5, tagv] if real == "s_two" else tagv
+        first_done = False
+        seen = set()
+        for oi, op in enumerate(desc["ops"]):
+            kind = op["op"]
+            if kind == "import":
+                W.restart()
+                probes["imports"] += 1
+                probes["package_imports"] += 1
+                pre_compiled = []
+                if not first_done and desc.get("first", "cli") != "cli":
+                    # another entry point first: a package module is imported (and cached) before the client ever is
+                    r0 = W.import_(P + desc["first"])
+                    if isinstance(r0[0], BaseException):
+                        viols.append({"clause": "import_failed", "sig": type(r0[0]).__name__, "detail": {"op": oi, "module": desc["first"], "error": repr(r0[0])[:300]}})
+                        break
+                    pre_compiled = list(W.last_compiled_paths)
+                first_done = True
+                res, _, out, err = W.import_(P + "cli")
+                if isinstance(res, BaseException):
+                    viols.append({"clause": "import_failed", "sig": type(res).__name__,
+                                  "detail": {"op": oi, "error": repr(res)[:300], "stderr": err[-600:], "forms": forms}})
+                    events.append([oi, "import", "FAILED", type(res).__name__])
+                    break
+                compiled_paths = set(pre_compiled) | set(W.last_compiled_paths)
+                for f in PKG_FILES:
+                    from_src = W.files[P + f] in compiled_paths
+                    probes["modules_loaded_from_source" if from_src else "modules_loaded_from_cache"] += 1
+                    if pyc_valid[f] and from_src:
+                        viols.append({"clause": "load_path", "sig": "valid_pyc_not_used", "detail": {"op": oi, "file": f}})
+                    if not pyc_valid[f] and not from_src:
+                        viols.append({"clause": "load_path", "sig": "stale_pyc_used", "detail": {"op": oi, "file": f}})
+                    if from_src:
+                        pyc_valid[f] = not sys.dont_write_bytecode
+                path = "source" if W.files[P + "cli"] in compiled_paths else "cache"
+                seen.add(path)
+                if path == "cache":
+                    probes["package_client_from_cache"] += 1
+                got_v = getattr(res, "v", "<missing>")
+                if got_v != want_v:
+                    viols.append({"clause": "module_values", "sig": "pkg:" + path,
+                                  "detail": {"op": oi, "path": path, "forms": forms, "got": repr(got_v)[:400], "expected": repr(want_v)[:400]}})
+                for attr, want in (("oval", ["sub:s1", [3, "sub:s-two"], "other:o1"]), ("dval", ["sub:s1", [9, "sub:s-two"], "sub:rs"])):
+                    if getattr(res, attr, None) != want:
+                        viols.append({"clause": "module_values", "sig": "pkg:" + path, "detail": {"op": oi, "attr": attr, "got": repr(getattr(res, attr, None))[:200]}})
+                if "L" in forms:
+                    try:
+                        lv = res.lf()
+                    except BaseException as e:
+                        lv = "<%s: %s>" % (type(e).__name__, str(e)[:100])
+                    if lv != ["sub:s1", [7, "sub:s-two"]]:
+                        viols.append({"clause": "module_values", "sig": "pkg-local-require:" + path, "detail": {"op": oi, "got": repr(lv)[:300]}})
+                have = sorted(getattr(res, "_hy_macros", {}).keys())
+                if have != sorted(keys):
+                    viols.append({"clause": "macro_table", "sig": "pkg:" + path,
+                                  "detail": {"op": oi, "path": path, "forms": forms, "missing": sorted(keys - set(have)),
+                                             "unexpected": sorted(set(have) - keys)}})
+                for k in sorted(keys & set(have)):
+                    probes["macro_expansion_probes"] += 1
+                    call = "(%s 5)" % k if k.split(".")[-1] in ("s_two", "t2") else "(%s)" % k
+                    try:
+                        v = hy.eval(hy.read(call), module=res)
+                    except BaseException as e:
+                        v = "<%s: %s>" % (type(e).__name__, str(e)[:80])
+                    if v != want_exp[k]:
+                        viols.append({"clause": "required_macro_unavailable", "sig": "pkg:" + path,
+                                      "detail": {"op": oi, "call": call, "got": repr(v)[:200], "expected": repr(want_exp[k])}})
+                        break
+                want_r = ["rs"] if "R" in forms else []
+                have_r = sorted(getattr(res, "_hy_reader_macros", {}).keys())
+                if have_r != want_r:
+                    viols.append({"clause": "reader_table", "sig": "pkg:" + path, "detail": {"op": oi, "got": have_r, "expected": want_r}})
+                events.append([oi, "import", path, sorted(os.path.relpath(x, W.root)[len(P):] for x in compiled_paths)])
+                seq.append(("import", path, len(compiled_paths)))
+            elif kind in ("edit", "touch"):
+                f = op["file"]
+                if kind == "edit":
+                    stamps[f] += 1
+                    texts, _, _ = pkg_texts(P, forms, stamps)
+                    W.write(P + f, texts[f])
+                    faults["source_edited"] += 1
+                else:
+                    W.touch(P + f)
+                    faults["source_touched"] += 1
+                pyc_valid[f] = False
+                events.append([oi, kind, f])
+                seq.append((kind, f))
+            elif kind == "rm_pyc":
+                f = op["file"]
+                if W.delete_pyc(P + f):
+                    faults["pyc_deleted"] += 1
+                    pyc_valid[f] = False
+                events.append([oi, kind, f])
+                seq.append((kind,))
+            elif kind == "dwb":
+                sys.dont_write_bytecode = bool(op["on"])
+                if op["on"]:
+                    faults["dont_write_bytecode"] += 1
+                events.append([oi, kind, op["on"]])
+                seq.append((kind, op["on"]))
+        sim_seconds = W.clock - W.start_clock
+    finally:
+        W.close()
+    uniq = {}
+    for v in viols:
+        uniq.setdefault((v["clause"], v["sig"]), v)
+    sigs = [kernel.digest(["pkg", sorted(forms), seq])] if seen == {"source", "cache"} else []
+    return {"events": events, "violations": list(uniq.values())[:5], "faults": faults, "probes": probes, "sigs": sigs,
+            "steps": len(desc["ops"]), "sim_seconds": sim_seconds}
 
 
 # ------------------------------------------------------------------ module texts and expectations
@@ -298,6 +532,8 @@ def execute(desc):
     setup_worker()
     if desc["kind"] == "ext":
         return execute_ext(desc)
+    if desc["kind"] == "pkg":
+        return execute_pkg(desc)
     from sim import kernel
     hy = _S["hy"]
     _S["n"] += 1
@@ -663,6 +899,17 @@ def execute_ext(desc):
 
 
 def shrink(desc):
+    if desc["kind"] == "pkg":
+        ops = desc["ops"]
+        for i in range(len(ops)):
+            if len(ops) > 1:
+                yield dict(desc, ops=ops[:i] + ops[i + 1:])
+        for i in range(len(desc["forms"])):
+            if len(desc["forms"]) > 1:
+                yield dict(desc, forms=desc["forms"][:i] + desc["forms"][i + 1:])
+        if desc.get("first", "cli") != "cli":
+            yield dict(desc, first="cli")
+        return
     if desc["kind"] == "ext":
         for i in range(len(desc["exts"])):
             if len(desc["exts"]) > 1:
